@@ -356,6 +356,6 @@ pub fn property() -> Property {
         rule: "random weighted multigraphs (1..=8 nodes quick, weights 0..=9 incl. zero edges/cycles, parallel edges, loops) in Graph / StableGraph+MatrixGraph with vacancies / GraphMap / Csr, cost types u32,i32,f64,f32 (floats are exact multiples of 0.25); dijkstra (no goal / goal), astar (single goal and goal sets; zero, exact and random admissible-inconsistent heuristics) and k_shortest_path (k 1..=5) compared with fixpoint distances and a dynamic programme over walks; non-trivial = some node unreachable and some direct edge beaten by a longer path; distinct by case fingerprint",
         assumptions: &["k-th walk cost oracle considers walks of at most k*n+1 edges (sufficient for non-negative costs)"],
         both_profiles: false,
-        subs: vec![sub("shortest/nonneg", 400_000, 8_000_000, strategy, run)],
+        subs: vec![sub("shortest/nonneg", 4_000_000, 60_000_000, strategy, run)],
     }
 }
